@@ -6,9 +6,10 @@ import solvercorr as sc
 import solverslices
 from props.c04 import TRUSTED
 
+THEOREMS_SINGLE = ['C02_reciprocity_single_bound', 'Single_instance_laws']
 THEOREMS = ["C02_reciprocity", "C02_shift_is_phase", "C02_point_measurement", "C02_point_measurement_cells"]
 ASSUMPTIONS = [
-    "the theorem is for double-precision storage; single precision is covered by the oracle with the property's storage-rounding tolerance (1e-4 relative)",
+    "C02_reciprocity is for double-precision storage; for single-precision storage C02_reciprocity_single_bound (Properties/SinglePrecisionProps.v, over the complex instance with an arbitrary rounding function obeying |rnd x - x| <= eps |x|; stdlib real axioms) bounds the reciprocity defect by 2 eps times the sum of the moduli of the exact forward-run flux amplitudes (concentration: eps resp. eps(2+eps) in the analytic branch, where the code rounds twice); the oracle checks both precisions on the code (1e-4 relative for single)",
     "measurement points are on the grid (xm = im*dx, ym = jm*dy)",
 ]
 
@@ -133,6 +134,7 @@ def pm_correspond(ctx):
 
 def check(ctx):
     core.check_properties_file(ctx, "Properties/C02.v", THEOREMS, core.AX_NONE)
+    core.check_properties_file(ctx, "Properties/SinglePrecisionProps.v", THEOREMS_SINGLE, core.AX_REALS, coqchk=False)
     solverslices.run(ctx)
     pm_structure(ctx)
     pm_correspond(ctx)
